@@ -44,6 +44,8 @@ type App struct {
 	Epoch     int
 	// RestoreLog records every snapshot handed to Restore.
 	RestoreLog [][]byte
+	// Jitter, if set, delays the commit handler now and then (live engine)
+	Jitter *jitter
 	// OnCommit, if set, is called inside the commit handler (used to submit
 	// follow-up transactions from within the commit callback).
 	OnCommit func(b *hg.Block)
@@ -106,6 +108,7 @@ func nextAppState(prev []byte, b *hg.BlockBody) []byte {
 
 // CommitHandler implements proxy.ProxyHandler.
 func (a *App) CommitHandler(block hg.Block) (proxy.CommitResponse, error) {
+	a.Jitter.nap()
 	a.mu.Lock()
 	defer a.mu.Unlock()
 	body, jb := deepCopyBody(block.Body)
